@@ -1,2 +1,168 @@
-/- driver stub for C01: replaced when the model exists -/
-def main : IO Unit := pure ()
+/- driver for C01: primitive codecs (Model.Prim) and the generated tables -/
+import BacVerif.Drv.Tag
+import BacVerif.Model.Prim
+import BacVerif.Gen.Enums
+open Lean BacVerif BacVerif.Drv
+
+def tyOfName : String → R PrimTy
+  | "null" => pure .null | "bool" => pure .bool | "unsigned" => pure .unsigned
+  | "integer" => pure .integer | "real" => pure .real | "double" => pure .double
+  | "octets" => pure .octets | "charstr" => pure .charstr | "bits" => pure .bits
+  | "enum" => pure .enum | "date" => pure .date | "time" => pure .time | "oid" => pure .oid
+  | s => throw s!"unknown type {s}"
+
+def jInt (i : Int) : Json := Json.num (JsonNumber.fromInt i)
+
+def bitsToStr (bs : List Bool) : String := String.ofList (bs.map fun b => if b then '1' else '0')
+
+def strToBits (s : String) : R (List Bool) :=
+  s.toList.mapM fun c => if c = '1' then pure true else if c = '0' then pure false else throw "bad bit"
+
+def nameOfStr (s : String) : BacVerif.Name := s.toList.map Char.toNat
+def strOfName (n : BacVerif.Name) : String := String.ofList (n.map Char.ofNat)
+
+def jVal : PrimVal → Json
+  | .null => Json.null
+  | .bool b => Json.num (bitNat b)
+  | .unsigned n => Json.num n
+  | .integer i => jInt i
+  | .real b => Json.num b.toNat
+  | .double b => Json.num b.toNat
+  | .octets bs => jHex bs
+  | .charstr e bs => Json.arr #[Json.num e, jHex bs]
+  | .bits bs => Json.str (bitsToStr bs)
+  | .enum n => Json.num n
+  | .date a b c d => Json.arr #[jInt a, jInt b, jInt c, jInt d]
+  | .time a b c d => Json.arr #[jInt a, jInt b, jInt c, jInt d]
+  | .oid t i => Json.arr #[jInt t, jInt i]
+
+def hexOf (j : Json) : R Bytes := do
+  match ofHex? (← j.getStr?) with
+  | some b => pure b
+  | none => throw "bad hex"
+
+def quadOf (j : Json) : R (Int × Int × Int × Int) := do
+  let a ← j.getArr?
+  if a.size ≠ 4 then throw "need 4 components"
+  pure (← a[0]!.getInt?, ← a[1]!.getInt?, ← a[2]!.getInt?, ← a[3]!.getInt?)
+
+def valOfJson (ty : PrimTy) (j : Json) : R PrimVal := do
+  match ty with
+  | .null => pure .null
+  | .bool => pure (.bool ((← j.getNat?) ≠ 0))
+  | .unsigned => pure (.unsigned (← j.getNat?))
+  | .integer => pure (.integer (← j.getInt?))
+  | .real =>
+      let n ← j.getNat?
+      if n ≥ 4294967296 then throw "real: not a 32-bit pattern"
+      pure (.real (UInt32.ofNat n))
+  | .double =>
+      let n ← j.getNat?
+      if n ≥ 18446744073709551616 then throw "double: not a 64-bit pattern"
+      pure (.double (UInt64.ofNat n))
+  | .octets => pure (.octets (← hexOf j))
+  | .charstr =>
+      let a ← j.getArr?
+      if a.size ≠ 2 then throw "charstr: need [enc, hex]"
+      pure (.charstr (← a[0]!.getNat?) (← hexOf a[1]!))
+  | .bits => pure (.bits (← strToBits (← j.getStr?)))
+  | .enum => pure (.enum (← j.getNat?))
+  | .date => let (a, b, c, d) ← quadOf j; pure (.date a b c d)
+  | .time => let (a, b, c, d) ← quadOf j; pure (.time a b c d)
+  | .oid =>
+      let a ← j.getArr?
+      if a.size ≠ 2 then throw "oid: need [type, instance]"
+      pure (.oid (← a[0]!.getInt?) (← a[1]!.getInt?))
+
+def modeOf (j : Json) : R Mode := do
+  match ← fldOptNat j "ctx" with
+  | none => pure .app
+  | some c => pure (.ctx c)
+
+def jEnumVal : EnumVal → Json
+  | .name s => Json.str (strOfName s)
+  | .num n => Json.num n
+
+def enumTable (cls : String) : R EnumTable :=
+  match Gen.Enums.enumTables.lookup cls with
+  | some t => pure t
+  | none => throw s!"unknown enumeration class {cls}"
+
+def handle (j : Json) : R Json := do
+  match ← fldStr j "op" with
+  | "enc" =>     -- X(v).encode(tag) [; tag.app_to_context(c)] ; tag.encode(pdu)
+      let ty ← tyOfName (← fldStr j "ty")
+      let v ← valOfJson ty (← fld j "v")
+      let m ← modeOf j
+      match encodePrim v, wireEncode m v with
+      | .ok t, .ok bs => pure (jOk [("tag", jTag t), ("hex", jHex bs)])
+      | .error e, _ => pure (jErr e)
+      | _, .error e => pure (jErr e)
+  | "dec" =>     -- Tag(pdu) [; context check; context_to_app] ; X(tag)
+      let ty ← tyOfName (← fldStr j "ty")
+      let bs ← fldHex j "hex"
+      let m ← modeOf j
+      match wireDecode ty m bs with
+      | .error e => pure (jErr e)
+      | .ok (v, rest) => pure (jOk [("v", jVal v), ("rest", jHex rest)])
+  | "dectag" =>  -- X(tag) on an arbitrary tag
+      let ty ← tyOfName (← fldStr j "ty")
+      let t ← tagOfJson (← fld j "tag")
+      match decodePrim ty t with
+      | .error e => pure (jErr e)
+      | .ok v => pure (jOk [("v", jVal v)])
+  | "a2c" =>     -- Tag.app_to_context
+      let t ← tagOfJson (← fld j "tag")
+      match appToContext (← fldNat j "c") t with
+      | .error e => pure (jErr e)
+      | .ok t' => pure (jOk [("tag", jTag t')])
+  | "c2a" =>     -- Tag.context_to_app
+      let t ← tagOfJson (← fld j "tag")
+      match contextToApp (← fldNat j "dt") t with
+      | .error e => pure (jErr e)
+      | .ok t' => pure (jOk [("tag", jTag t')])
+  | "enum" =>    -- cls(arg); .encode(tag); cls(tag)
+      let T ← enumTable (← fldStr j "cls")
+      let arg ← match fldOpt j "name" with
+        | some n => do pure (EnumArg.name (nameOfStr (← n.getStr?)))
+        | none => do pure (EnumArg.int (← fldInt j "int"))
+      match enumCtor T arg with
+      | .error e => pure (jErr e)
+      | .ok v =>
+        let e : Json := match enumEncode T v with
+          | .error e => jErr e
+          | .ok t =>
+            match enumDecode T t with
+            | .error e => jErr e
+            | .ok back => jOk [("data", jHex t.data), ("back", jEnumVal back)]
+        pure (jOk [("v", jEnumVal v), ("e", e)])
+  | "uctor" =>   -- Unsigned subclass constructor
+      let cls ← fldStr j "cls"
+      match Gen.Enums.unsignedLimits.lookup cls with
+      | none => throw s!"unknown unsigned class {cls}"
+      | some (lo, hi) =>
+        match unsignedCtor lo hi (← fldInt j "v") with
+        | .error e => pure (jErr e)
+        | .ok n => pure (jOk [("n", Json.num n)])
+  | "bitnames" => -- BitString subclass built from a list of names
+      let cls ← fldStr j "cls"
+      match Gen.Enums.bitTables.lookup cls with
+      | none => throw s!"unknown bit string class {cls}"
+      | some (len, T) =>
+        let names ← (← fldArr j "names").toList.mapM fun n => do pure (nameOfStr (← n.getStr?))
+        match bitsFromNames T len names with
+        | .error e => pure (jErr e)
+        | .ok bs => pure (jOk [("bits", Json.str (bitsToStr bs))])
+  | "otype" =>   -- ObjectIdentifier.objectTypeClass lookups (set_long / get_tuple)
+      match fldOpt j "name" with
+      | some n =>
+        match xlateName Gen.Enums.objectTypeTable (nameOfStr (← n.getStr?)) with
+        | some v => pure (jOk [("n", Json.num v)])
+        | none => pure (jErr .valueRange)
+      | none =>
+        match xlateNum Gen.Enums.objectTypeTable (← fldNat j "n") with
+        | some s => pure (jOk [("name", Json.str (strOfName s))])
+        | none => pure (jOk [("name", Json.null)])
+  | op => throw s!"unknown op {op}"
+
+def main : IO Unit := loop handle
